@@ -357,6 +357,31 @@ func (ex *Exec) querySplit(extra *smt.Term, wantModel bool) smt.Result {
 	return out
 }
 
+// refinePrefer: a counterexample is re-solved under the soft facts (all of
+// them, else greedily one by one); the refined model is used only if the query
+// stays sat, so nothing is lost and no proof ever depends on a soft fact.
+func (ex *Exec) refinePrefer(extra *smt.Term, first smt.Result) smt.Result {
+	if len(ex.C.Prefer) == 0 || first.Status != "sat" {
+		return first
+	}
+	c := ex.C
+	all := append([]*smt.Term{extra}, c.Prefer...)
+	if r := ex.query(c.And(all...), true, ex.QuickMs, ex.QuickMs); r.Status == "sat" {
+		return r
+	}
+	if len(c.Prefer) > 24 {
+		return first
+	}
+	cur, acc := first, []*smt.Term{extra}
+	for _, p := range c.Prefer {
+		try := append(append([]*smt.Term{}, acc...), p)
+		if r := ex.query(c.And(try...), true, ex.QuickMs/2, ex.QuickMs/2); r.Status == "sat" {
+			cur, acc = r, try
+		}
+	}
+	return cur
+}
+
 // refineTrig makes a model replayable when sin/cos of symbolic angles were
 // abstracted to unit pairs: the variables occurring in the angle terms are
 // fixed to their model values, the pairs are pinned to the true sine/cosine of
@@ -1107,6 +1132,7 @@ func (ex *Exec) flush() {
 		ob := pend[i].ob
 		neg := ex.C.Not(pend[i].cond)
 		r := ex.querySplit(neg, true)
+		r = ex.refinePrefer(neg, r)
 		r = ex.refineTrig(neg, r)
 		ob.Status, ob.Solver, ob.Secs, ob.Err = r.Status, r.Solver, r.Secs, r.Err
 		ob.Nodes = smt.Size(append(append([]*smt.Term{neg}, ex.pc...), ex.defs...)...)
